@@ -4,10 +4,12 @@ package parser
 
 import (
 	"io"
+	"strings"
 
 	"github.com/moorara/algo/grammar"
 	"github.com/moorara/algo/lexer"
 
+	ebnflexer "github.com/gardenbed/emerge/internal/ebnf/lexer"
 	"github.com/gardenbed/emerge/internal/verif"
 )
 
@@ -25,6 +27,8 @@ type stubLexer struct {
 	requested int
 	failAt    int // index of the NextToken call that fails with failErr (-1: never)
 	failErr   error
+	eof       lexer.Lexer      // if set: a real scanner that has reached its end of input; it answers the calls past the last token
+	eofPos    []lexer.Position // positions of the tokens that scanner delivered before
 }
 
 func (s *stubLexer) NextToken() (lexer.Token, error) {
@@ -33,11 +37,38 @@ func (s *stubLexer) NextToken() (lexer.Token, error) {
 		return lexer.Token{}, s.failErr
 	}
 	if s.i >= len(s.toks) {
+		if s.eof != nil {
+			return s.eof.NextToken()
+		}
 		return lexer.Token{}, io.EOF
 	}
 	t := s.toks[s.i]
 	s.i++
 	return t, nil
+}
+
+// atEOF installs a real scanner that has delivered k tokens and reached the end of its input, so
+// that what the parser sees at the end of input is what the real scanner returns there.
+func (s *stubLexer) atEOF(k int) {
+	text := ""
+	for i := 0; i < k; i++ {
+		text += "x" + vitoa(i) + "\n"
+	}
+	if k == 0 {
+		text = "\n"
+	}
+	l, err := ebnflexer.New("f", strings.NewReader(text))
+	if err != nil {
+		return
+	}
+	for i := 0; i < k; i++ {
+		t, err := l.NextToken()
+		if err != nil {
+			return
+		}
+		s.eofPos = append(s.eofPos, t.Pos)
+	}
+	s.eof = l
 }
 
 // symTokens builds k tokens of arbitrary kinds; lexemes and positions are distinct
@@ -380,6 +411,7 @@ func harnessLRParse() {
 	k := verif.Len("k", 0, lrK)
 	toks := symTokens(k)
 	lx := &stubLexer{toks: toks, failAt: -1}
+	lx.atEOF(k)
 	p := &Parser{L: lx}
 	var got []int
 	err := p.Parse(
